@@ -77,9 +77,11 @@ def _inst_app(inst, k):
     return 'foo.%s#%010d' % (inst, k)
 
 
-def make_scn(name, conts, hosts=('host1', 'host2'), endpoints=('http',), identity=True, apps=None):
+def make_scn(name, conts, hosts=('host1', 'host2'), endpoints=('http',), identity=True, apps=None,
+             idents=None):
     """conts: list of (container, instance) oldest first; apps: instance -> app name
-    (default foo.<instance>#<n>)."""
+    (default foo.<instance>#<n>); idents: container -> identity number where it is not its
+    instance's (the instance was assigned another identity when it was scheduled again)."""
     insts = []
     for _, a in conts:
         if a not in insts:
@@ -107,6 +109,11 @@ def make_scn(name, conts, hosts=('host1', 'host2'), endpoints=('http',), identit
             if identity:
                 ds.append('{"app": "%s", "host": "%s"}' % (app[a], h))
             data[h][c] = ds
+    cpaths, ident_c = {}, {}
+    for c, n in (idents or {}).items():
+        a = dict(conts)[c]
+        cpaths[c] = paths[a][:-1] + ['/identity-groups/grp/%d' % n]
+        ident_c[c] = n
     ext = dict(srv={h: '/servers/' + h for h in hosts},
                plc={h: '/placement/' + h for h in hosts},
                sch={a: '/scheduled/' + app[a] for a in insts},
@@ -119,7 +126,8 @@ def make_scn(name, conts, hosts=('host1', 'host2'), endpoints=('http',), identit
     return dict(name=name, hosts=list(hosts), conts=[c for c, _ in conts],
                 inst={c: a for c, a in conts}, paths=paths, data=data,
                 app=app, rid=rid, port=port, endpoints=list(endpoints), identity=identity,
-                identity_of={a: i for i, a in enumerate(insts)}, ext=ext)
+                identity_of={a: i for i, a in enumerate(insts)}, ext=ext, cpaths=cpaths,
+                ident_c=ident_c)
 
 
 SCENARIOS = {
@@ -133,6 +141,9 @@ SCENARIOS = {
     # of the same app, identities 0 / 1 of the same group)
     'px': make_scn('px', [('c1', 'a'), ('c2', 'b'), ('c3', 'a')], hosts=('host1', 'host10'),
                    apps={'a': 'foo.app#0000000001', 'b': 'foo.app#0000000010'}),
+    # the instance gets another identity when it is scheduled again: c2 (instance a) is
+    # assigned identity 1, which c3 of instance b holds
+    'i3': make_scn('i3', [('c1', 'a'), ('c2', 'a'), ('c3', 'b')], idents={'c2': 1}),
     'py': make_scn('py', [('c1', 'a'), ('c2', 'a'), ('c3', 'b')], hosts=('node', 'node-b'),
                    apps={'a': 'proid.app#0000000001', 'b': 'proid.app#0000000010'}),
     # beyond the model-checked constants (random schedules only)
@@ -148,7 +159,7 @@ def header(scn, ext=False):
     presence nodes exist, i.e. the trace was recorded by World(ext=True))."""
     return dict(hosts=scn['hosts'], conts=scn['conts'], inst=scn['inst'], paths=scn['paths'],
                 data=scn['data'], kidx=list(range(1, 2 + len(scn['endpoints']))),
-                allpaths=[p for a in scn['paths'] for p in scn['paths'][a]],
+                allpaths=[p for a in scn['paths'] for p in scn['paths'][a]], cpaths=scn['cpaths'],
                 ext=dict(scn['ext'], sp=scn['ext']['sp'] if ext else {}))
 
 
@@ -653,7 +664,7 @@ class World:
                    vip=dict(ip0='192.168.0.1', ip1='192.168.0.2'))
         if scn['identity']:
             req['identity_group'] = 'grp'
-            req['identity'] = scn['identity_of'][a]
+            req['identity'] = scn['ident_c'].get(c, scn['identity_of'][a])
         cdir = os.path.join(self.root, h, 'apps', scn['rid'][c], 'resources', 'presence')
         client = host.rs.make_client(cdir)
         client.put(scn['rid'][c], req)                   # the real producer (runtime/linux/_run.py)
